@@ -297,6 +297,23 @@ def many_vars_recipe(draw):
     if "sh0" in vars_:
         items.append(["gput", _key(5003), ["load", "sh0"]])
     items += tail_ind
+    # an explicitly numbered variable whose every mention sits in a later block: written, copied straight away (adjacent
+    # store/load, no other direct load) and then read back INDIRECTLY through a DynamicScratchVar
+    if level >= 5 and draw(st.integers(0, 2)) == 0:
+        free = [x for x in range(0, 256) if x not in used_ids]
+        sid = free[draw(st.integers(0, len(free) - 1))]
+        used_ids.add(sid)
+        vars_["late0"] = {"t": "U", "slot": sid}
+        vars_["cpL"] = {"t": "U", "slot": None}
+        vars_["dynL"] = {"t": "U", "slot": None, "kind": "dyn"}
+        kinds.add("explicit-mentioned-only-in-a-later-block")
+        marker[0] += 1
+        items.append(["if", ["bin", "Lt", ["txn", "fee"], ["int", draw(st.sampled_from([0, 10**9]))]], ["gput", _key(4010), ["int", 1]], None, "then"])
+        items.append(["store", "late0", ["int", marker[0]]])
+        items.append(["store", "cpL", ["load", "late0"]])
+        items.append(["gput", _key(4011), ["load", "cpL"]])
+        items.append(["dsetidx", "dynL", "late0"])
+        items.append(["gput", _key(4012), ["dload", "dynL", "U"]])
     if gadget is not None:
         items.append(["if", ["bin", "Lt", ["txn", "fee"], ["int", draw(st.sampled_from([0, 10**9]))]], ["gput", _key(4001), ["int", 1]], None, "then"])
         items.append(store(gadget))
